@@ -44,7 +44,7 @@ def gen(rep, tier, kinds, expects, clauses, hashseeds=(0,)):
     for maxrows, nkeys in scopes:
         r = engine.run_tlc("Gen_Join", _gen_cfg(maxrows, nkeys, kinds, expects), timeout=1500)
         rep.add_mc(r, f"Gen_Join rows<={maxrows} keys={nkeys}")
-        cases = [c for _, c in r.prints]
+        cases = [dict(c, _n=i) for i, (_, c) in enumerate(r.prints)]
         cp = os.path.join(sc, "join_cases.json")
         json.dump(cases, open(cp, "w"))
         for c in cases[len(cases) // 2: len(cases) // 2 + 1]:
